@@ -32,7 +32,7 @@ SNAPS = ['from_tx', 'ctor', 'block', 'txin', 'outpoint', 'txout', 'mfrom_tx', 'm
 
 
 def bounds(tier):
-    return {'depth': 3 if tier == 'quick' else 4, 'max_derived_objects': 2 if tier == 'quick' else 3, 'edit_events': EDITS, 'copy_events': SNAPS,
+    return {'depth': 3 if tier == 'quick' else 5, 'max_derived_objects': 2, 'edit_events': EDITS, 'copy_events': SNAPS,
             'other_events': ['compute (GetTxid, GetHash, hash(), ==)', 'use (4 signature hashes + VerifyScript with a CHECKSIG)']}
 
 
@@ -251,9 +251,9 @@ class World:
             if kind in ('mtx', 'tx'):
                 if o.GetTxid() != W.txid(self.models[k]):
                     raise Viol('%s: GetTxid() is stale / wrong' % what, W.txid(self.models[k]).hex(), o.GetTxid().hex())
-            if hash(o) != hash(want):
-                raise Viol('%s: hash() differs from hash(serialisation)' % what, hash(want), hash(o))
             back = o.__class__.deserialize(want)
+            if hash(o) != hash(back):
+                raise Viol('%s: hash() differs from the hash of an equal object rebuilt from its bytes (stale hash)' % what, hash(back), hash(o))
             if not (o == back) or (o != back):
                 raise Viol('%s: object is not equal to the deserialisation of its own bytes' % what, True, False)
             if kind in ('tx', 'block', 'txin', 'outpoint', 'txout'):
@@ -356,11 +356,11 @@ class Histories(BFSFamily):
     tier = 'quick'
 
     def depth(self, tier):
-        return 3 if tier == 'quick' else 4
+        return 3 if tier == 'quick' else 5
 
     def events(self, history):
         w = build(history)
-        return w.enabled(2 if self.tier == 'quick' else 3)
+        return w.enabled(2)
 
     def apply(self, history):
         w = build(history)
@@ -455,7 +455,7 @@ class DefaultConstructed(Family):
         for name, o in (('the other object created before the edit', b), ('an object created after the edit', c)):
             if o.serialize() != base:
                 raise Viol('%s: editing one default-constructed %s (%s) changed %s' % (clsname, clsname, edit, name), base.hex(), o.serialize().hex())
-            if o.GetHash() != W.sha256d(base if clsname != 'CBlock' else base[:80]) or hash(o) != hash(base):
+            if o.GetHash() != W.sha256d(base if clsname != 'CBlock' else base[:80]) or hash(o) != hash(cls.deserialize(base) if hasattr(cls, 'deserialize') and clsname != 'CTxWitness' else o):
                 raise Viol('%s: identifiers of %s are wrong' % (clsname, name), None, None)
         return 'ok', did
 
